@@ -143,7 +143,12 @@ def continua(draw, labels=LABELS_ABC, min_ann=2, max_ann=5, budget=1200, max_per
     else:
         names = list(names)[:n]
     shape = draw(st.sampled_from(shapes))
-    lab = (lambda: None) if unlabelled else (lambda: draw(st.sampled_from(labels)))
+    if unlabelled == "mixed":      # labelled and unlabelled units side by side
+        lab = lambda: draw(st.sampled_from([None] + list(labels)))
+    elif unlabelled:
+        lab = lambda: None
+    else:
+        lab = lambda: draw(st.sampled_from(labels))
     units = []
     counts = _counts(draw, n, budget, max_per)
     if shape == "random":
@@ -229,7 +234,8 @@ def continuum_and_spec(draw, kinds=("pos", "abs", "precomputed", "lev", "ordinal
     cats = spec_categories(spec)
     unl = False
     if cats is None and unlabelled_ratio > 0:
-        unl = draw(st.integers(0, 99)) < unlabelled_ratio * 100
+        r = draw(st.integers(0, 99))
+        unl = True if r < unlabelled_ratio * 100 else ("mixed" if r < 2 * unlabelled_ratio * 100 else False)
     cont = draw(continua(labels=cats if cats is not None else LABELS_ABC, unlabelled=unl, **kw))
     return {"continuum": cont, "dissim": spec}
 
